@@ -58,11 +58,17 @@ class H(semh.Base):
             return T("bit [ %d ] x = $s ;" % n, {"s": ("BIT_STRING", cs)})
         if kind == "bool":
             return T(f"{self.task[1]} ;")
+        if kind == "huge":      # an integer literal that does not fit 128 bits: a diagnostic, never a panic
+            return T(f"{self.task[1]} ;")
         raise ValueError(kind)
 
     def check(self, ex, R):
         kind = self.task[0]
         P = lambda c, msg: ex.prove(c, f"`{self.label()}`: {msg}")
+        if kind == "huge":
+            if not R.errors:
+                raise Violation(f"`{self.label()}`: an integer literal above 2^128-1 is accepted without diagnostic")
+            return "huge"
         st = R.stmts[-1]
         if st.v == "ExprStmt":
             te = st[0]
@@ -159,6 +165,7 @@ def build_tasks(quick):
         if n > 1:
             T.append(("bits", n, True))
     T.append(("bool", "true")); T.append(("bool", "false"))
+    T.append(("huge", str(2 ** 128))); T.append(("huge", "0x1" + "0" * 32)); T.append(("huge", "int x = " + str(2 ** 128)))
     return T
 
 
